@@ -19,6 +19,7 @@ type pg struct {
 	lines    []string
 	nv       int
 	helpers  []helper
+	counter  string   // name of a struct type with one-line methods inc/dec on its pointer ("" if none)
 	generics []string // names of generic helpers (SetBreakpoints with a line request dies on such programs: F19-2)
 	feat     map[string]bool
 	noLoops  bool // straight-line and branching programs only (the domain of the partial theorem)
@@ -115,7 +116,7 @@ func (p *pg) block(ind int, vars, ro, bools []string, depth, n int, inLoop bool)
 	all := func() []string { return append(append([]string(nil), vars...), ro...) }
 	var defined []string
 	for k := 0; k < n; k++ {
-		choice := p.r.Intn(27)
+		choice := p.r.Intn(31)
 		if depth >= 3 && (choice >= 8 && choice <= 13 || choice >= 20) {
 			choice = p.r.Intn(8)
 		}
@@ -203,7 +204,11 @@ func (p *pg) block(ind int, vars, ro, bools []string, depth, n int, inLoop bool)
 		case choice == 12:
 			p.feat["switch"] = true
 			if p.r.Intn(2) == 0 {
-				p.emit(ind, "switch %s %% 3 {", p.pickVar(all()))
+				if p.r.Intn(3) == 0 {
+					p.emit(ind, "switch %s {", p.pickVar(all())) // a plain tag: no operation on the line
+				} else {
+					p.emit(ind, "switch %s %% 3 {", p.pickVar(all()))
+				}
 				p.emit(ind, "case 0:")
 				p.block(ind+1, vars, ro, bools, depth+1, 1, inLoop)
 				p.emit(ind, "case 1:")
@@ -385,7 +390,25 @@ func (p *pg) block(ind int, vars, ro, bools []string, depth, n int, inLoop bool)
 			p.emit(ind+1, "%s = 9", v)
 			p.emit(ind, "}")
 		case choice == 26 && len(p.generics) > 0:
-			p.emit(ind, "%s = %s(%s)", p.pickVar(vars), p.generics[p.r.Intn(len(p.generics))], p.atom(all()))
+			g := p.generics[p.r.Intn(len(p.generics))]
+			p.emit(ind, "%s = %s(%s)", p.pickVar(vars), g, p.atom(all()))
+			if p.r.Intn(2) == 0 {
+				p.emit(ind, "fmt.Println(%s(%q))", g, p.fresh("s")) // a second instance
+			}
+		case choice == 27 && p.counter != "":
+			// a method written on one line: signature (with a *T) and body share the line
+			p.emit(ind, "ct.%s()", []string{"inc", "dec"}[p.r.Intn(2)])
+		case choice == 28:
+			// two statements on one line: one visit of the line, one stop
+			p.feat["two-on-a-line"] = true
+			p.emit(ind, "%s++; %s += %d", p.pickVar(vars), p.pickVar(vars), 1+p.r.Intn(3))
+		case choice == 29:
+			// a whole if on one line
+			p.feat["one-line-if"] = true
+			p.emit(ind, "if %s { %s = %d }", p.cond(all(), bools), p.pickVar(vars), p.r.Intn(9))
+		case choice == 30 && inLoop:
+			// the jump statement shares its line with the test
+			p.emit(ind, "if %s { %s }", p.cond(all(), bools), []string{"break", "continue"}[p.r.Intn(2)])
 		default:
 			p.emit(ind, "%s = %s", p.pickVar(vars), p.expr(all()))
 		}
@@ -515,7 +538,16 @@ func genProgram(r *rand.Rand) progT {
 		p.genHelper()
 		p.emit(0, "")
 	}
-	if p.r.Intn(30) == 0 {
+	if p.r.Intn(3) == 0 {
+		p.feat["one-line-method"] = true
+		p.counter = p.fresh("ctr")
+		p.emit(0, "type %s struct{ n int }", p.counter)
+		p.emit(0, "")
+		p.emit(0, "func (c *%s) inc() { c.n++ }", p.counter)
+		p.emit(0, "func (c *%s) dec() { c.n-- }", p.counter)
+		p.emit(0, "")
+	}
+	if p.r.Intn(8) == 0 {
 		p.feat["generic"] = true
 		name := p.fresh("gid")
 		p.emit(0, "func %s[T any](a T) T {", name)
@@ -527,8 +559,14 @@ func genProgram(r *rand.Rand) progT {
 	p.emit(0, "func main() {")
 	p.emit(1, "x := %d", p.r.Intn(5))
 	p.emit(1, "y := %d", 1+p.r.Intn(5))
+	if p.counter != "" {
+		p.emit(1, "ct := &%s{}", p.counter)
+	}
 	p.block(1, []string{"x", "y"}, nil, nil, 1, 3+p.r.Intn(5), false)
 	p.emit(1, "fmt.Println(\"end\", x, y)")
+	if p.counter != "" {
+		p.emit(1, "fmt.Println(ct.n)")
+	}
 	switch p.r.Intn(14) {
 	case 0:
 		p.feat["panic"] = true
